@@ -25,6 +25,11 @@ PURE_EXT = {'cosf', 'sinf', 'sqrtf', 'fabsf', 'log2f', 'exp2f', 'ceilf', 'floorf
             'llvm.experimental.noalias.scope.decl'}
 ALLOC_EXT = {'malloc': None, 'aligned_alloc': None, 'calloc': None, 'posix_memalign': None, '_aligned_malloc': None}
 FREE_EXT = {'free', '_aligned_free'}
+FPENV = ('glob', None, '<floating-point environment>', 0)
+FPENV_WRITE = {'llvm.x86.sse.ldmxcsr', 'fesetround', 'fesetenv', 'feupdateenv', 'fesetexceptflag', 'feraiseexcept', 'feclearexcept',
+               'feholdexcept', 'llvm.set.rounding', 'feenableexcept', 'fedisableexcept', 'fesetmode', '_controlfp', '_control87'}
+FPENV_READ = {'llvm.x86.sse.stmxcsr', 'fegetround', 'fegetenv', 'llvm.flt.rounds', 'llvm.get.rounding', 'fetestexcept', 'fegetexceptflag',
+              'fegetmode'}
 NORETURN_EXT = {'abort', 'exit', '_exit', '__assert_fail'}
 IO_EXT = {'fwrite', 'fputs', 'fprintf', 'printf', 'putchar', 'puts', 'fputc', 'fflush', 'strerror', '__errno_location',
           'perror'}
@@ -329,6 +334,13 @@ class Effects:
                 return
             if name in IO_EXT:
                 S.io = True
+                return
+            if name in FPENV_WRITE:
+                # the floating-point environment (rounding mode, flush-to-zero, exception masks) is process/thread state
+                note_write({FPENV}, i, 'floating-point environment (' + name + ')')
+                return
+            if name in FPENV_READ:
+                S.reads.add(FPENV)
                 return
             if name in READONLY_EXT:
                 for o in i.ops:
